@@ -93,6 +93,22 @@ class ExecutionContext:
 # ---------------------------------------------------------------------------
 
 
+def emit_admission_event(ctx: ExecutionContext, decision: Any) -> None:
+    """
+    Emit the event of an admission decision.
+
+    Hooks swallow ordinary exceptions, but a KeyboardInterrupt, SystemExit,
+    GeneratorExit or CancelledError can still surface here. An admitted call
+    then ends before it ever ran, so release the breaker (half-open probe slot).
+    """
+    try:
+        ctx.emit_breaker_event(decision.event, decision.state)
+    except BaseException:
+        if decision.allowed:
+            record_cancel(ctx)
+        raise
+
+
 def check_breaker(ctx: ExecutionContext) -> None:
     """
     Check circuit breaker and raise CircuitOpenError if open.
@@ -103,7 +119,7 @@ def check_breaker(ctx: ExecutionContext) -> None:
         return
 
     decision = ctx.breaker.allow()
-    ctx.emit_breaker_event(decision.event, decision.state)
+    emit_admission_event(ctx, decision)
 
     if not decision.allowed:
         raise CircuitOpenError(decision.state.value)
